@@ -76,7 +76,7 @@ def _run_group(group):
 def build_key(sc) -> str:
     from .core import canon
     return canon([sc["arch"], sc["cfg"], sc.get("temp"), sc.get("gumbel"), sc.get("mode"), sc.get("hard_flag"),
-                  sc.get("metrics"), sc.get("probe"), sc.get("full"), sc.get("seed", 0) // 1000])
+                  sc.get("metrics"), sc.get("probe"), sc.get("full"), sc.get("batch"), sc.get("seed", 0) // 1000])
 
 
 def run_scenarios(scs: List[Dict[str, Any]], procs: int = 0) -> List[Dict[str, Any]]:
@@ -179,7 +179,10 @@ def build(sc) -> Dict[str, Any]:
     if not cost:
         cost = {"params_bit": pc.params_bit}
     from .archgen import exclude_names
-    m = MPS(net, cost=cost, input_shape=input_shape(arch),
+    batch = int(sc.get("batch", 0))
+    shape_kw = {"input_example": torch.rand((batch,) + input_shape(arch), generator=gen)} if batch else \
+        {"input_shape": input_shape(arch)}
+    m = MPS(net, cost=cost, **shape_kw,
             w_search_type=MPSType.PER_CHANNEL if cfg["wt"] == "pc" else MPSType.PER_LAYER,
             qinfo=qinfo, temperature=float(sc.get("temp", 1.0)), gumbel_softmax=bool(sc.get("gumbel", False)),
             hard_softmax=bool(sc.get("hard_flag", sc.get("mode") in ("hard", "ghard"))),
@@ -339,9 +342,10 @@ def _fill_want(want, written, recs, sh) -> None:
                 want[n]["w"] = [pw[ww[1]]] * cout
 
 
-def load_new_alphas(B, written, rng) -> None:
-    """History action `load`: draw a NEW winner for every quantiser object and install the coefficients with
-    load_state_dict (no forward pass): theta_alpha keeps encoding the previously sampled assignment."""
+def load_new_alphas(B, written, rng, how: str = "load") -> None:
+    """History actions `load` / `copy` / `data`: draw a NEW winner for every quantiser object and install the coefficients
+    with load_state_dict / in-place copy_ / .data assignment (no forward pass, no mode switch): theta_alpha keeps encoding
+    the previously sampled assignment."""
     import torch
     m, recs = B["m"], B["recs"]
     new: Dict[int, Any] = {}
@@ -363,13 +367,26 @@ def load_new_alphas(B, written, rng) -> None:
             else:
                 w = [rng.randrange(nc) for _ in range(q.alpha.shape[1])]
                 new[id(q)] = (kind, w, torch.tensor([_alpha_for(nc, x, rng) for x in w], dtype=torch.float32).t())
-    sd = m.state_dict()
-    for key in list(sd):
-        if key.endswith(".alpha"):
-            q = m.get_submodule(key[:-len(".alpha")])
-            if id(q) in new:
-                sd[key] = new[id(q)][2].clone()
-    m.load_state_dict(sd)
+    if how == "load":
+        sd = m.state_dict()
+        for key in list(sd):
+            if key.endswith(".alpha"):
+                q = m.get_submodule(key[:-len(".alpha")])
+                if id(q) in new:
+                    sd[key] = new[id(q)][2].clone()
+        m.load_state_dict(sd)
+    else:
+        done = set()
+        for n in sorted(recs):
+            lay = recs[n]["layer"]
+            for q in [lay.out_mps_quantizer] + ([lay.w_mps_quantizer] if recs[n]["kind"] in ("conv", "lin") else []):
+                if id(q) in new and id(q) not in done:
+                    done.add(id(q))
+                    if how == "copy":
+                        with torch.no_grad():
+                            q.alpha.copy_(new[id(q)][2])
+                    else:
+                        q.alpha.data = new[id(q)][2].clone()
     for k, (kind, w, _) in new.items():
         written[k] = (kind, w)
 
@@ -421,10 +438,11 @@ def run(sc: Dict[str, Any], cache: Optional[Dict[str, Any]] = None) -> Dict[str,
         return {"prop": sc.get("prop", "C02"), "arch": norm_arch(sc["arch"]), "cfg": sc["cfg"], "build_ok": False,
                 "build_err": B["err"], "L": [], "metrics": [], "cost": {}, "cost_ok": {}, "probe": False, "conflict": False,
                 "export_done": False, "export_ok": False, "export_err": "", "bit_identical": False, "y_varies": False,
-                "maxdiff_e6": 0, "mode": sc.get("mode", "eval"), "hist": [], "hist_err": "", "cost2": {}, "cost2_ok": {}, "fresh_model": True,
+                "maxdiff_e6": 0, "mode": sc.get("mode", "eval"), "hist": [], "hist_err": "", "cost2": {}, "cost2_ok": {}, "fresh_model": True, "exports": [], "batch": int(sc.get("batch", 0)),
                 "full": bool(sc.get("full", False))}
     m, recs, arch, probe = B["m"], B["recs"], B["arch"], B["probe"]
     rng = random.Random(sc.get("seed", 0) * 7919 + 13)
+    m.eval()                            # every history starts in eval mode (a cached model may have been left in training mode)
     S = apply_selection(sc, B, rng)
     want = S["want"]
     sh = shapes(arch)
@@ -444,34 +462,115 @@ def run(sc: Dict[str, Any], cache: Optional[Dict[str, Any]] = None) -> Dict[str,
         hist = (["export!", fw] if t["order"] == "ef" else [fw, "export!"]) if do_export else [fw]
     if sc["cfg"]["wt"] == "pc":         # the per-channel exporter (QuantList) is outside C02 / C05: not called in histories
         hist = ["summary" if a == "export" else a for a in hist]
-    t["hist"] = [a for a in hist if a != "export!"]
+    t["hist"] = list(hist)
     t["fresh_model"] = fresh_model
     hist_err = ""
 
+    exports: List[Dict[str, Any]] = []
+    wver = 0
+
+    def fwd(grad: bool):
+        if grad:
+            with torch.enable_grad():
+                for x in xs:
+                    m(x)
+        else:
+            with torch.no_grad():
+                for x in xs:
+                    m(x)
+
     def export_now():
+        """export() compared with the eval-mode model AT THIS MOMENT: the model is evaluated BEFORE export() is called (a model
+        that already is in eval mode is not switched: an eval()/train() call - also the one inside export() - may reset
+        inference-time state) and again afterwards; the exported module must reproduce both."""
         nonlocal exported, err
+        was_training = m.training
+        if was_training:
+            m.eval()
+        cmp_x = xs + [torch.rand((5,) + input_shape(arch), generator=gen) * 1.4 - 0.2]       # also another batch size
+        with torch.no_grad():
+            y_before = [m(x) for x in cmp_x]
         try:
             exported = m.export()
             exported.eval()
         except Exception as e:          # export must not fail on a supported network: reported by the trace spec
             exported = None
             err = f"{type(e).__name__}: {e}"[:200]
+            exports.append({"ok": False, "bit": False, "diff": 0, "wcur": False, "wver": wver})
+            if was_training:
+                m.train()
+            return
+        if m.training:
+            m.eval()
+        bit, diff = True, 0.0
+        with torch.no_grad():
+            for x, yb in zip(cmp_x, y_before):
+                ya, ye = m(x), exported(x)
+                for a_ in (yb, ya):
+                    if a_.shape != ye.shape or not torch.equal(a_, ye):
+                        bit = False
+                        if a_.shape == ye.shape:
+                            diff = max(diff, float((a_ - ye).abs().max()))
+        if was_training:
+            m.train()
+        wcur = True
+        exm = dict(exported.named_modules())
+        for n_, r_ in recs.items():
+            if r_["kind"] in ("conv", "lin"):
+                e_ = exm.get(r_["name"])
+                if e_ is None or not hasattr(e_, "weight") or e_.weight.shape != r_["layer"].weight.shape \
+                        or not torch.equal(e_.weight, r_["layer"].weight) \
+                        or ((e_.bias is None) != (r_["layer"].bias is None)) \
+                        or (e_.bias is not None and not torch.equal(e_.bias, r_["layer"].bias)):
+                    wcur = False
+        exports.append({"ok": True, "bit": bool(bit), "diff": int(min(diff * 1e6, 2e9)), "wcur": bool(wcur), "wver": wver})
+
+    def sgd(all_params: bool):
+        """One SGD step in hard-sampling training mode (autograd on): on the network weights only / on all parameters."""
+        nonlocal wver
+        m.update_softmax_options(hard=True, gumbel=False)
+        m.train()
+        params = list(m.parameters()) if all_params else list(m.net_parameters())
+        nas = {id(p) for p in m.nas_parameters()}
+        for p in m.parameters():
+            p.grad = None
+        opt = torch.optim.SGD([{"params": [p for p in params if id(p) not in nas], "lr": 0.05},
+                               {"params": [p for p in params if id(p) in nas], "lr": 0.002}])
+        before = [r_["layer"].weight.detach().clone() for r_ in recs.values() if r_["kind"] in ("conv", "lin")]
+        with torch.enable_grad():
+            out = m(xs[0])
+            loss = (out - 0.3).square().mean()
+            loss.backward()
+        opt.step()
+        for p in m.parameters():
+            p.grad = None
+        after = [r_["layer"].weight.detach() for r_ in recs.values() if r_["kind"] in ("conv", "lin")]
+        if any(not torch.equal(a_, b_) for a_, b_ in zip(before, after)):
+            wver += 1
+        if all_params:          # the coefficients moved: what the quantisers hold now is read back
+            for n_ in recs:
+                lay_ = recs[n_]["layer"]
+                for kind_, q_ in [("a", lay_.out_mps_quantizer)] + ([("w", lay_.w_mps_quantizer)] if recs[n_]["kind"] in ("conv", "lin") else []):
+                    a_ = q_.alpha.detach()
+                    S["written"][id(q_)] = (kind_, int(torch.argmax(a_)) if a_.dim() == 1 else [int(i) for i in torch.argmax(a_, dim=0)])
+            _fill_want(want, S["written"], recs, sh)
 
     def do(act):
-        if act == "fwd_eval":
+        if act in ("fwd_eval", "to_eval"):
             m.eval()
-        elif act == "fwd_hard":
+        elif act in ("fwd_hard", "to_hard"):
             m.update_softmax_options(hard=True, gumbel=False)
             m.train()
-        elif act == "fwd_ghard":
+        elif act in ("fwd_ghard", "to_ghard"):
             m.update_softmax_options(hard=True, gumbel=True)
             m.train()
-        if act.startswith("fwd_"):
-            with torch.no_grad():
-                for x in xs:
-                    m(x)
+        if act in ("fwd_eval", "fwd_hard", "fwd_ghard", "fwd_n"):
+            fwd(False)
+        elif act == "fwd_g":
+            fwd(True)
+        elif act in ("to_eval", "to_hard", "to_ghard"):
+            pass
         elif act == "export!":
-            m.eval()
             export_now()
         elif act == "export":
             m.export()
@@ -479,13 +578,13 @@ def run(sc: Dict[str, Any], cache: Optional[Dict[str, Any]] = None) -> Dict[str,
             m.summary()
         elif act == "upd":
             m.update_softmax_options(temperature=round(0.05 * (400.0 ** rng.random()), 3))
-        elif act == "load":
-            load_new_alphas(B, S["written"], rng)
+        elif act in ("load", "copy", "data"):
+            load_new_alphas(B, S["written"], rng, act)
             _fill_want(want, S["written"], recs, sh)
-        elif act == "train":
-            m.train()
-        elif act == "eval":
-            m.eval()
+        elif act == "sgd_net":
+            sgd(False)
+        elif act == "sgd_all":
+            sgd(True)
         else:
             raise tlc.MachineryError(f"unknown history action {act}")
 
@@ -536,21 +635,21 @@ def run(sc: Dict[str, Any], cache: Optional[Dict[str, Any]] = None) -> Dict[str,
             t["probe_err"] = f"{type(e).__name__}: {e}"[:200]
         for c in probe.calls:
             shown.setdefault(c["node"], []).append(c)
-    # ---- bit-identity (eval mode, float32, one thread)
-    bit_identical = True
+    # ---- bit-identity: every compared export of the history (eval mode, float32, one thread)
+    bit_identical = all(e["bit"] for e in exports) if exports else True
+    maxdiff = max([e["diff"] for e in exports] or [0]) / 1e6
     y_varies = False
-    maxdiff = 0.0
     if exported is not None:
-        m.eval()
+        was_training = m.training
+        if was_training:
+            m.eval()
         with torch.no_grad():
             yev = [m(x) for x in xs]
-            yex = [exported(x) for x in xs]
-        for a_, b_ in zip(yev, yex):
-            if a_.shape != b_.shape or not torch.equal(a_, b_):
-                bit_identical = False
-                if a_.shape == b_.shape:
-                    maxdiff = max(maxdiff, float((a_ - b_).abs().max()))
+        if was_training:
+            m.train()
         y_varies = bool(yev[0].std() > 0) and all(bool(torch.isfinite(v).all()) for v in yev)
+    t["exports"] = exports
+    t["batch"] = int(sc.get("batch", 0))
     t["export_done"] = do_export
     t["export_ok"] = exported is not None
     t["export_err"] = err
@@ -578,6 +677,7 @@ def run(sc: Dict[str, Any], cache: Optional[Dict[str, Any]] = None) -> Dict[str,
                "cand_o": [int(x) for x in lay.out_mps_quantizer.precision.tolist()], "cand_i": [], "cand_w": [],
                "su_i": NA, "su_o": NA, "su_w": [], "su_ok": False,
                "ex_i": NA, "ex_o": NA, "ex_w": [], "ex_ok": False, "ex_type": "",
+               "ex_k": NA, "ex_s": NA, "ex_d": NA, "ex_pm": "", "ex_bias": False,
                "th_o": theta[n]["o"][0][0], "th_i": NA, "th_w": [], "th_hot": theta[n]["o"][1]}
         if is_layer:
             rec["am_i"] = _argmax_bits(lay.in_mps_quantizer)[0]
@@ -613,6 +713,16 @@ def run(sc: Dict[str, Any], cache: Optional[Dict[str, Any]] = None) -> Dict[str,
                     rec["ex_o"] = int(e.out_quantizer.precision)
                     rec["ex_w"] = [int(e.w_quantizer.precision)] * cout
                     geom_ok = (e.weight.shape == lay.weight.shape) and ((e.bias is None) == (lay.bias is None))
+                    rec["ex_bias"] = e.bias is not None
+                    if isinstance(e, QuantLinear):
+                        rec["ex_k"], rec["ex_s"], rec["ex_d"], rec["ex_pm"] = 1, 1, 1, "zeros"
+                    else:
+                        rec["ex_k"], rec["ex_s"], rec["ex_d"] = int(e.kernel_size[0]), int(e.stride[0]), int(e.dilation[0])
+                        rec["ex_pm"] = str(e.padding_mode)
+                        pad = e.padding if isinstance(e.padding, str) else int(e.padding[0])
+                        nd_ = arch["nodes"][n - 1]
+                        want_pad = 0 if (nd_["causal"] or nd_["valid"]) else ("same" if arch["dim"] == 1 else nd_["d"] * (nd_["k"] // 2))
+                        geom_ok = geom_ok and pad == want_pad and int(e.groups) == int(lay.groups)
                     rec["ex_ok"] = bool(is_layer and geom_ok)
                 elif isinstance(e, QuantList):
                     rec["ex_ok"] = False
@@ -667,6 +777,10 @@ def scenario_from_state(st: Dict[str, Any], **opts) -> Dict[str, Any]:
     if st.get("hist"):
         sc["hist"] = list(st["hist"])
     sc.update(opts)
+    if sc.get("prop") == "C02" and sc.get("hist") is not None:      # every export of the history is compared; one at the end
+        sc["hist"] = ["export!" if a == "export" else a for a in sc["hist"]]
+        if not sc["hist"] or sc["hist"][-1] != "export!":
+            sc["hist"].append("export!")
     return sc
 
 
@@ -694,15 +808,27 @@ def random_mps_arch(rng: random.Random, max_nodes: int = 9, dim: int = 2, reuse:
                            weights=[6, 2, 4 if fl else 0, 3, 1, 1.2 if len(nf) > 1 else 0, 3, 0 if done_reuse else 5])[0]
         if kind == "conv" and nf:
             causal = dim == 1 and rng.random() < 0.6
-            nodes.append({"op": "conv", "ins": [pick(nf)], "out": rng.choice([2, 3, 4, 5]),
-                          "k": rng.choice([1, 3]) if dim == 2 else rng.choice([1, 2, 3, 5]),
-                          "d": 1 if dim == 2 else rng.choice([1, 1, 2]), "causal": causal,
-                          "s": rng.choice([1, 1, 1, 2]) if (dim == 2 or causal) else 1, "bias": rng.random() < 0.7,
-                          "bn": dim == 2 and rng.random() < 0.4})
+            p_ = pick(nf)
+            k_ = rng.choice([1, 3]) if dim == 2 else rng.choice([1, 2, 3, 5])
+            d_ = rng.choice([1, 1, 2])
+            nd_ = {"op": "conv", "ins": [p_], "out": rng.choice([2, 3, 4, 5]), "k": k_, "d": d_, "causal": causal,
+                   "s": rng.choice([1, 1, 1, 2]) if (dim == 2 or causal) else 1, "bias": rng.random() < 0.7,
+                   "bn": dim == 2 and rng.random() < 0.4}
+            pad_ = d_ * (k_ // 2) if dim == 2 else (d_ * (k_ - 1) + 1) // 2
+            if not causal and sh[p_]["sp"] > pad_ >= 1 and rng.random() < 0.5:
+                nd_["pm"] = rng.choice(["reflect", "replicate", "circular"])       # needs an input larger than the padding
+            elif not causal and sh[p_]["sp"] - d_ * (k_ - 1) >= 2 and rng.random() < 0.12:
+                nd_["valid"] = True
+                nd_["s"] = 1
+            nodes.append(nd_)
         elif kind == "dw" and nf:
             causal = dim == 1 and rng.random() < 0.6
-            nodes.append({"op": "conv", "ins": [pick(nf)], "dw": True, "k": 3, "bias": rng.random() < 0.7, "causal": causal,
-                          "bn": dim == 2 and rng.random() < 0.3})
+            p_ = pick(nf)
+            nd_ = {"op": "conv", "ins": [p_], "dw": True, "k": 3, "bias": rng.random() < 0.7, "causal": causal,
+                   "bn": dim == 2 and rng.random() < 0.3}
+            if not causal and sh[p_]["sp"] > 1 and rng.random() < 0.4:
+                nd_["pm"] = rng.choice(["reflect", "replicate", "circular"])
+            nodes.append(nd_)
         elif kind == "lin" and fl:
             nodes.append({"op": "lin", "ins": [pick(fl)], "out": rng.choice([2, 3, 4, 6]), "bias": rng.random() < 0.7,
                           "bn": rng.random() < 0.3})
@@ -870,17 +996,23 @@ def _take(lst, k, rng):
     return [lst[i] for i in idx]
 
 
-HIST_ACTS = ["fwd_eval", "fwd_hard", "fwd_ghard", "load", "export", "summary", "upd"]
+HIST_ACTS = ["fwd_eval", "fwd_hard", "fwd_ghard", "load", "export", "summary", "upd",
+             "to_eval", "to_hard", "to_ghard", "fwd_n", "fwd_g", "fwd_n", "fwd_g", "copy", "data", "sgd_net", "sgd_all"]
+C02_ACTS = ["to_eval", "to_eval", "to_hard", "to_ghard", "fwd_n", "fwd_n", "fwd_g", "load", "copy", "data", "sgd_net", "sgd_net",
+            "sgd_all", "export!", "export!", "summary", "upd"]
 
 
 def _options(pid: str, cfg: Dict[str, Any], rng: random.Random, dim: int = 2, p_hist: float = 0.0) -> Dict[str, Any]:
     """Construction / evaluation options of one model build (the property's quantifier: temperature 0.05..20,
-    gumbel on/off, hard on/off; C05: eval, hard-sampling training mode, hard-Gumbel training mode, call histories)."""
+    gumbel on/off, hard on/off; C05: eval, hard-sampling training mode, hard-Gumbel training mode, call histories;
+    tracing example: input_shape (batch 1) or an input_example with a batch of 2..5)."""
     temp = round(0.05 * (400.0 ** rng.random()), 3)
-    o: Dict[str, Any] = {"temp": temp, "prop": pid}
+    o: Dict[str, Any] = {"temp": temp, "prop": pid, "batch": rng.randint(2, 5) if rng.random() < 0.3 else 0}
     if pid == "C02":
         o.update({"mode": "eval", "gumbel": rng.random() < 0.5, "hard_flag": rng.random() < 0.3,
                   "metrics": [], "probe": False, "export": True})
+        if rng.random() < p_hist:
+            o["hist"] = [rng.choice(C02_ACTS) for _ in range(rng.randint(1, 7))] + ["export!"]
     else:
         mode = rng.choices(["eval", "hard", "ghard"], weights=[4, 3, 3])[0]
         mets = ["params_bit", "ops_bit"]
@@ -892,7 +1024,7 @@ def _options(pid: str, cfg: Dict[str, Any], rng: random.Random, dim: int = 2, p_
         o.update({"mode": mode, "gumbel": (rng.random() < 0.5) if mode == "eval" else mode == "ghard",
                   "metrics": mets, "probe": True, "export": False, "full": rng.random() < 0.25})
         if rng.random() < p_hist:
-            o["hist"] = [rng.choice(HIST_ACTS) for _ in range(rng.randint(0, 6))]
+            o["hist"] = [rng.choice(HIST_ACTS) for _ in range(rng.randint(0, 7))]
     return o
 
 
@@ -912,10 +1044,18 @@ def _corrupt(tr, pid, rng):
     c = copy.deepcopy(tr)
     layers = [r for r in c["L"] if r["kind"] in ("conv", "lin")]
     if pid == "C02":
-        kind = rng.choice(["bit", "ex_i", "su_o", "ex_w", "am_o"])
+        kind = rng.choice(["bit", "ex_i", "su_o", "ex_w", "am_o", "exp_bit", "exp_wcur", "ex_pm", "ex_s"])
         r = rng.choice(layers)
         if kind == "bit":
             c["bit_identical"] = False
+        elif kind == "exp_bit":
+            rng.choice(c["exports"])["bit"] = False
+        elif kind == "exp_wcur":
+            rng.choice(c["exports"])["wcur"] = False
+        elif kind == "ex_pm":
+            r["ex_pm"] = "reflect" if r["ex_pm"] != "reflect" else "zeros"
+        elif kind == "ex_s":
+            r["ex_s"] = r["ex_s"] + 1
         elif kind == "ex_i":
             r["ex_i"] = 2 if r["ex_i"] != 2 else 4
         elif kind == "su_o":
@@ -1001,6 +1141,10 @@ def run_check(pid: str, tier: str, seed: int, replay: Optional[str], plan: Dict[
                     sc["hist"] = hist
                     sc["mode"] = "eval"
                     sc["gumbel"] = False
+                    if pid == "C02":        # every export of the history is compared with the model, and one more at the end
+                        sc["hist"] = ["export!" if a == "export" else a for a in hist]
+                        if not sc["hist"] or sc["hist"][-1] != "export!":
+                            sc["hist"].append("export!")
                 sc["order"] = "ef" if (j + build_no) % 2 else "fe"
                 sc["seed"] = build_no * 1000 + j
                 sc["src"] = label
